@@ -52,6 +52,8 @@ SRC = [
        prop="C07", theorem="src_get_checksum_byte_buf"),
   dict(file="AcraNetwork/MPEG/PMT.py", lean="PMT", func="crc32mpeg2", params={"msg": "bytes"},
        prop="C07", theorem="src_crc32mpeg2"),
+  dict(file="AcraNetwork/__init__.py", lean="Init", func="endianness_swap",
+       prop="C17", theorem="src_endianness_swap"),
   dict(file="AcraNetwork/Golay.py", lean="Golay", func="Golay._init_Table",
        prop="C11", theorem="src_Golay_init_Table"),
   dict(file="AcraNetwork/Golay.py", lean="Golay", func="Golay._syndrome2",
